@@ -41,16 +41,16 @@ TolsRw == IF Level = 1 THEN {AbsTol(Q(1, 10)), PctTol(Q(1, 100))}
 NF == IF Level = 1 THEN {<<1, 0>>, <<2, 0>>, <<2, 1>>, <<2, 3>>, <<3, 0>>, <<3, 1>>, <<3, 3>>}
       ELSE {<<n, f>> : n \in 1..4, f \in 0..3}
 NFsmall == IF Level = 1 THEN {<<1, 0>>, <<2, 0>>, <<3, 1>>}
-           ELSE {<<1, 0>>, <<1, 1>>, <<2, 0>>, <<2, 1>>, <<2, 2>>, <<3, 0>>, <<3, 2>>, <<3, 3>>, <<4, 2>>}
+           ELSE {<<1, 0>>, <<1, 1>>, <<2, 0>>, <<2, 2>>, <<3, 0>>, <<3, 2>>, <<4, 2>>}
 \* the answer's credit alternates with the seed so that full and partial credit are both exercised everywhere
 CreditOf(n, f) == IF (n + f) % 2 = 0 THEN One ELSE Q(1, 2)
 
 (* ---- sampled values and student forms per part *)
-XReal == IF Level = 1 THEN {R(-2, 1), RZ, R(1, 2), R(4, 1)} ELSE {R(-2, 1), R(-1, 3), RZ, R(1, 2), R(1, 1), R(4, 1)}
+XReal == IF Level = 1 THEN {R(-2, 1), RZ, R(1, 2), R(4, 1)} ELSE {R(-2, 1), R(-1, 3), RZ, R(1, 2), R(4, 1)}
 DeltaReal == IF Level = 1 THEN {RZ, R(1, 20), R(1, 2), R(-1, 4), R(-3, 1)}
-             ELSE {RZ, R(1, 20), R(-1, 20), R(1, 2), R(-1, 2), R(-1, 4), R(1, 10), R(1, 5), R(2, 1), R(-3, 1)}
+             ELSE {RZ, R(1, 20), R(-1, 20), R(1, 2), R(-1, 2), R(-1, 4), R(1, 10), R(-3, 1)}
 EpsReal == IF Level = 1 THEN {RZ, R(1, 100), R(1, 2), R(-1, 10), R(-2, 1)}
-           ELSE {RZ, R(1, 100), R(1, 2), R(-1, 2), R(1, 4), R(-1, 10), R(1, 20000), R(1, 5000), R(1, 1), R(-2, 1)}
+           ELSE {RZ, R(1, 100), R(1, 2), R(-1, 2), R(-1, 10), R(1, 20000), R(1, 5000), R(-2, 1)}
 DVarReal == IF Level = 1 THEN {RZ, R(1, 4), R(-1, 1)} ELSE {RZ, R(1, 4), R(-1, 1), R(1, 2)}
 ConstReal == {R(1, 2), R(-2, 1)}
 
@@ -167,7 +167,7 @@ EnvVals == IF Level = 1 THEN {Q(-2, 1), Q(1, 2), I(3)} ELSE {Q(-2, 1), Q(1, 2), 
 Env(x, y) == [v \in {"x", "y"} |-> IF v = "x" THEN x ELSE y]
 Envs == {Env(x, y) : x \in EnvVals, y \in EnvVals}
 MidEnvs == IF Level = 1 THEN {Env(Q(1, 2), I(3)), Env(Q(-2, 1), Q(-2, 1))}
-           ELSE {Env(Q(1, 2), I(3)), Env(Q(-2, 1), Q(-2, 1)), Env(Q(-1, 3), Q(1, 2))}
+           ELSE {Env(Q(1, 2), I(3)), Env(Q(-1, 3), Q(1, 2))}
 EnvSeqs(n) == IF n = 1 THEN {<<e>> : e \in MidEnvs}
               ELSE IF n = 2 THEN {<<Env(Q(-2, 1), I(3)), e>> : e \in MidEnvs}
               ELSE IF n = 3 THEN {<<Env(I(3), Q(1, 2)), e, Env(Q(1, 2), Q(-2, 1))>> : e \in MidEnvs}
@@ -175,7 +175,7 @@ EnvSeqs(n) == IF n = 1 THEN {<<e>> : e \in MidEnvs}
 DevsRw == IF Level = 1 THEN {FP("same", RZ), FP("add", R(1, 100)), FP("add", R(1, 1)), FP("mul", R(1, 100000)), FP("mul", R(1, 2)),
                              FP("mul", R(-2, 1))}
           ELSE {FP("same", RZ), FP("add", R(1, 100)), FP("add", R(1, 1)), FP("add", R(-1, 10000)), FP("mul", R(1, 100000)),
-                FP("mul", R(1, 1000)), FP("mul", R(1, 2)), FP("mul", R(-2, 1))}
+                FP("mul", R(1, 1000)), FP("mul", R(-2, 1))}
 RewritesOf(t) == {[rule |-> r, pos |-> p] : r \in Rules, p \in Positions}
 
 (* ---- state *)
